@@ -115,8 +115,10 @@ LitClass(cs) ==
   ELSE IF cs[1] = "\"" THEN (LET c == StrBody(cs, 2) IN <<c, IF c = "supported" THEN "s" ELSE "">>)
   ELSE IF IsDig(cs[1]) \/ (cs[1] = "-" /\ Len(cs) >= 2 /\ IsDig(cs[2])) THEN NumClass(cs)
   ELSE <<"other", "">>
-RECURSIVE Concat(_)
-Concat(cs) == IF cs = <<>> THEN "" ELSE Head(cs) \o Concat(Tail(cs))
+RECURSIVE ConcatR(_, _, _)
+ConcatR(cs, a, b) == IF a > b THEN "" ELSE IF a = b THEN cs[a]
+                     ELSE LET m == (a + b) \div 2 IN ConcatR(cs, a, m) \o ConcatR(cs, m + 1, b)
+Concat(cs) == ConcatR(cs, 1, Len(cs))
 
 \* ---- rendering as a TOKEN sequence (brackets, separators, scalars, keys and whitespace strings are tokens) ----------
 \* threads a gap counter g through the document; the whitespace of gap number g is Ws[pat[(g % Len(pat)) + 1]]
@@ -129,7 +131,12 @@ Ren(v, pat, g) ==
   ELSE IF v[1] = "c" THEN <<<<Concat(v[2])>>, g, FALSE>>
   ELSE IF v[1] = "arr" THEN RenArr(v[2], 1, pat, g, <<"[">>, FALSE)
   ELSE RenObj(v[2], 1, pat, g, <<"{">>, FALSE)
+\* (Forced: TLC passes operator arguments as unevaluated thunks; an accumulator that is only extended would become a chain of
+\* thunks as long as the document and be unwound on one stack at the very end - evaluating it at every step keeps the
+\* recursion as deep as the document is nested)
+Forced(g, acc, bad) == g >= 0 /\ Len(acc) >= 0 /\ (bad \/ TRUE)
 RenArr(vs, i, pat, g, acc, bad) ==
+  IF ~Forced(g, acc, bad) THEN <<acc, g, bad>> ELSE
   IF i > Len(vs) THEN <<acc \o W(pat, g) \o <<"]">>, g + 1, bad>>
   ELSE LET r == Ren(vs[i], pat, g + 1)
            more == i < Len(vs)
@@ -137,6 +144,7 @@ RenArr(vs, i, pat, g, acc, bad) ==
        IN RenArr(vs, i + 1, pat, IF more THEN r[2] + 1 ELSE r[2], acc \o W(pat, g) \o r[1] \o sep,
                  bad \/ r[3] \/ (more /\ HasNl(Gap(pat, r[2]))))
 RenObj(ms, i, pat, g, acc, bad) ==
+  IF ~Forced(g, acc, bad) THEN <<acc, g, bad>> ELSE
   IF i > Len(ms) THEN <<acc \o W(pat, g) \o <<"}">>, g + 1, bad>>
   ELSE LET r == Ren(ms[i][2], pat, g + 3)               \* gaps: g before the key, g+1 before ':', g+2 before the value
            more == i < Len(ms)
@@ -148,8 +156,11 @@ RenObj(ms, i, pat, g, acc, bad) ==
 \* the whole document: whitespace around it (Trim)
 DocTokens(v, pat) == LET r == Ren(v, pat, 1) IN W(pat, 0) \o r[1] \o W(pat, r[2])
 NlBeforeSep(v, pat) == Ren(v, pat, 1)[3]
-RECURSIVE Text(_)
-Text(ts) == IF ts = <<>> THEN "" ELSE Head(ts) \o Text(Tail(ts))
+\* (divide and conquer: the recursion is as deep as the logarithm of the number of tokens, not as their number)
+RECURSIVE TextR(_, _, _)
+TextR(ts, a, b) == IF a > b THEN "" ELSE IF a = b THEN ts[a]
+                   ELSE LET m == (a + b) \div 2 IN TextR(ts, a, m) \o TextR(ts, m + 1, b)
+Text(ts) == TextR(ts, 1, Len(ts))
 
 \* ---- corruption of a rendering (token level) -----------------------------------------------------------------
 IsWsTok(t) == \E i \in 1..Len(Ws) : t = Ws[i]
